@@ -1128,7 +1128,7 @@ func TestVerifBearer(t *testing.T) {
 		bsEnumerate(session("se"))
 	}
 	srng := verifRng(1414)
-	for i, ns := 0, verifN(700, 60000); i < ns; i++ {
+	for i, ns := 0, verifN(700, 40000); i < ns; i++ {
 		session("sr")(bsRandom(srng))
 	}
 	nr := verifN(4000, 400000)
